@@ -68,6 +68,10 @@ def main(argv):
             hks = [tuple(int(x) for x in m.split(".")) for m in re.findall(r' data-hk="(\d+\.\d+)"', out)]
             if len(set(hks)) != len(hks):
                 orfail.append({"what": "hydration keys not unique", "view": viewgen.sx_view(v), "keys": hks})
+            exp_keys = viewgen.expected_keys(v, st)
+            if [e for _, e in hks] != exp_keys:
+                orfail.append({"what": "hydration keys are not the dense creation-order numbering", "view": viewgen.sx_view(v),
+                               "state": viewgen.sx_state(st), "keys_in_output": [e for _, e in hks], "expected": exp_keys})
             if hks != sorted(hks) or any(s0 != 0 for s0, _ in hks):
                 orfail.append({"what": "hydration keys not in element-creation order", "view": viewgen.sx_view(v), "keys": hks})
             flat.append((st, v, hexout))
